@@ -22,6 +22,9 @@ from common import coq_lit, Nat, CoqRaw, Some
 K_F11 = 'C18:save_results:resume-with-partial-output:backup-unlinked-before-write'
 K_F12 = 'C18:TimeEvolutionAlgorithm.get_resume_data:trunc_err-not-restored'
 K_F18 = 'C18:DMRGEngine.is_converged:IndexError-on-empty-sweep_stats-after-resume'
+K_F18_2 = 'C18:DMRGEngine.is_converged:nan-Delta_E-after-resume-at-min_sweeps:extra-sweeps'
+K_F18_3 = 'C18:DMRGEngine.run_iteration:ValueError-entropy-of-nondiagonal-S-after-resume-with-mixer'
+K_F18_4 = 'C18:IterativeSweeps.pre_run_initialize:mixer-reactivated-on-resume'
 
 IMPORTS = ['Base.Prelude', 'Model.Fs', 'Model.ResumeProto']
 
@@ -272,6 +275,11 @@ def real_oracle(ctx, out, coq_cases, coq_meta, coq_group=None, meta_group=None):
             key = 'C18:real:resume-raises'
             if (spec['sim'] == 'GroundStateSearch' and 'IndexError' in e and 'is_converged' in e and "sweep_stats['E'][-1]" in e):
                 key = K_F18
+            if (spec['sim'] == 'GroundStateSearch' and spec.get('mixer') and 'ValueError: entropy with non-diagonal schmidt values' in e
+                    and 'S_old = np.mean(self.psi.entanglement_entropy())' in e):
+                # the checkpoint was written while (or right after) a mixer was active: its psi has non-diagonal Schmidt values,
+                # and the resumed engine treats its first iteration as the first of the run (sweep_stats is empty)
+                key = K_F18_3
             ctx.fail('oracle', 'resume from checkpoint %d (%s) of %s/%s (%s): %s' % (c, mode, spec['sim'], spec['alg'], sp, e[:300]),
                      dict(case, group_events=rec.get('group_resume')), match_key=key)
             group_events(ctx, 'resumed run', rec.get('group_resume', []), gs_opt, True, case, coq_group, meta_group)
@@ -281,17 +289,19 @@ def real_oracle(ctx, out, coq_cases, coq_meta, coq_group=None, meta_group=None):
         rs = rec['resumed']
         rm = rs['measurements']
         probs = []
+        vprobs = []         # differences of values only (same number of records): energy, state, measured numbers
         if not rs['finished']:
             probs.append('resumed run not finished')
         if 'energy' in plain and abs(plain['energy'] - rs.get('energy', 1e99)) > 1e-10 * max(1, abs(plain['energy'])):
-            probs.append('final energy %.15g, plain run %.15g' % (rs.get('energy', float('nan')), plain['energy']))
+            vprobs.append('final energy %.15g, plain run %.15g' % (rs.get('energy', float('nan')), plain['energy']))
         if rec['overlap'] is None or abs(rec['overlap'] - 1) > 1e-9 or abs(rec['norm_ratio'] - 1) > 1e-9:
-            probs.append('final state differs: |<plain|resumed>| = %r, norm ratio %r' % (rec['overlap'], rec['norm_ratio']))
+            vprobs.append('final state differs: |<plain|resumed>| = %r, norm ratio %r' % (rec['overlap'], rec['norm_ratio']))
         if rs.get('psi_grouped', 1) != 1 or rs.get('psi_L') != plain.get('psi_L'):
             probs.append('final state has psi.grouped=%s, L=%s (plain run: 1, %s)' % (rs.get('psi_grouped'), rs.get('psi_L'), plain.get('psi_L')))
-        if rs.get('has_psi') != save_psi or (save_psi and abs(rec.get('file_overlap', 0) - 1) > 1e-9):
-            probs.append('save_psi=%s but the results %s psi (overlap of the psi in the file with the plain final state %r)'
-                         % (save_psi, 'contain' if rs.get('has_psi') else 'do not contain', rec.get('file_overlap')))
+        if rs.get('has_psi') != save_psi:
+            probs.append('save_psi=%s but the results %s psi' % (save_psi, 'contain' if rs.get('has_psi') else 'do not contain'))
+        elif save_psi and abs(rec.get('file_overlap', 0) - 1) > 1e-9:
+            vprobs.append('overlap of the psi in the file with the plain final state %r' % (rec.get('file_overlap'),))
         if sorted(rm) != sorted(pm):
             probs.append('measurement keys %s, plain run %s' % (sorted(rm), sorted(pm)))
         if not rec.get('file_equal') or rec['disk_after']['out'][0] != 'C' or rec['disk_after']['bak'] != ['A']:
@@ -307,10 +317,31 @@ def real_oracle(ctx, out, coq_cases, coq_meta, coq_group=None, meta_group=None):
                 elif is_te and k == 'ov_error' and close(rm[k], [v if i <= i0 else v / pm[k][i0] for i, v in enumerate(pm[k])], 1e-9):
                     f12.append(k)
                 else:
-                    probs.append('%s: %s, plain run %s' % (k, rm[k], pm[k]))
-        if probs:
+                    vprobs.append('%s: %s, plain run %s' % (k, rm[k], pm[k]))
+        # attribution of a difference to the state of the DMRG engine that is not carried across the resume (observed at the
+        # start of every optimizing sweep: sweeps done, active mixer [class, amplitude] | None, entries of sweep_stats)
+        key, why = 'C18:real:resumed-differs', ''
+        ptrace = {t[0]: t for t in plain.get('sweep_trace', [])}
+        rtrace = rec.get('sweep_trace', [])
+        if spec['sim'] == 'GroundStateSearch' and rtrace and (probs or vprobs):
+            mixdiff = [(t[0], t[1], ptrace[t[0]][1]) for t in rtrace if t[0] in ptrace and not close(t[1], ptrace[t[0]][1], 1e-12)]
+            min_sw = out.get('min_sweeps', spec.get('alg_params', {}).get('min_sweeps'))
+            if mixdiff and not probs and spec.get('mixer') and rtrace[0][0] > 0 and ptrace.get(0, [0, None])[1] is not None \
+                    and close(rtrace[0][1], ptrace[0][1], 1e-12):
+                # only numbers differ, and the resumed engine starts its first sweep with the mixer of sweep 0
+                key = K_F18_4
+                why = (' [the resumed engine starts sweep %d with the mixer %s of sweep 0, the uninterrupted run does that sweep with %s]'
+                       % (mixdiff[0][0], mixdiff[0][1], mixdiff[0][2]))
+            elif (not mixdiff and min_sw is not None and rec.get('ckpt_sweeps') == min_sw and rtrace[0][0] == min_sw and rtrace[0][2] == 0
+                  and ptrace and rtrace[-1][0] > max(ptrace)):
+                # resumed with exactly min_sweeps sweeps done and an empty sweep_stats: Delta_E of the next sweep is nan, the
+                # convergence test that stops the uninterrupted run fails, the resumed run goes on sweeping
+                key = K_F18_2
+                why = (' [resumed at sweeps = min_sweeps = %d with empty sweep_stats: it optimizes sweeps %s, the uninterrupted run stops after sweep %d]'
+                       % (min_sw, [t[0] + 1 for t in rtrace], max(ptrace) + 1))
+        if probs or vprobs:
             ctx.fail('oracle', 'stopped at checkpoint %d (%s) and resumed %s/%s (%s, %s): ' % (c, mode, spec['sim'], spec['alg'], spec['fmt'], sp)
-                     + '; '.join(probs)[:900], dict(case, resumed=rs, plain=plain), match_key='C18:real:resumed-differs')
+                     + '; '.join(probs + vprobs)[:900] + why, dict(case, resumed=rs, plain=plain, sweep_trace=rtrace), match_key=key)
         if f12:
             ctx.fail('oracle', 'stopped at checkpoint %d and resumed %s: %s restart from the initial truncation error '
                      '(resumed %s, plain %s)' % (c, spec['alg'], '/'.join(f12), rm[f12[0]], pm[f12[0]]),
@@ -425,6 +456,37 @@ def option_specs(ctx):
         # every checkpoint is stopped after its save_at_checkpoint call; one of the two crash modes in addition
         spec['modes'] = ['listener', rng.choice(['write', 'rename'])] if not ctx.thorough() else ['listener', 'write', 'rename']
         specs.append(spec)
+    return specs
+
+
+def dmrg_state_specs(ctx):
+    """Resume equivalence over the state of the DMRG engine besides psi and the environments (stream real-resume-dmrg):
+    the mixer (class default of the engine; amplitude, decay and disable_after drawn so that checkpoints with an active
+    mixer, the checkpoint right after its deactivation and checkpoints after it all occur) and the convergence history
+    (the stopping criterion decides, with min_sweeps = the last checkpoint of the uninterrupted run)."""
+    rng = ctx.rng
+    specs = []
+    algs = ['TwoSiteDMRGEngine', 'SingleSiteDMRGEngine']
+    rng.shuffle(algs)
+    # (a) mixer with the default parameters of the engine: active at every checkpoint of a short run
+    specs.append({'sim': 'GroundStateSearch', 'alg': algs[0], 'fmt': rng.choice(['pkl', 'h5']), 'L': 8, 'chi': 4,
+                  'max_sweeps': rng.choice([2, 3]), 'N_sweeps_check': 1, 'mixer': True})
+    # (b) mixer that is switched off after disable_after sweeps, before the run ends
+    da = rng.choice([1, 2])
+    specs.append({'sim': 'GroundStateSearch', 'alg': algs[1], 'fmt': 'pkl', 'L': 8, 'chi': 4, 'max_sweeps': da + rng.choice([1, 2]),
+                  'N_sweeps_check': 1, 'mixer': True,
+                  'alg_params': {'mixer_params': {'amplitude': rng.choice([1.e-2, 1.e-3]), 'decay': rng.choice([1.5, 2.]), 'disable_after': da}}})
+    if ctx.thorough() or not ctx.proof.ok:
+        for alg in algs:
+            da = rng.choice([1, 2, 3])
+            specs.append({'sim': 'GroundStateSearch', 'alg': alg, 'fmt': rng.choice(['pkl', 'h5']), 'L': rng.choice([6, 8]), 'chi': 4,
+                          'max_sweeps': da + 2, 'N_sweeps_check': rng.choice([1, 2]), 'mixer': rng.choice([True, 'DensityMatrixMixer', 'SubspaceExpansion']),
+                          'alg_params': {'mixer_params': {'amplitude': 1.e-2, 'decay': 2., 'disable_after': da}}})
+    # (c) the convergence criterion decides and min_sweeps is the number of sweeps of the last checkpoint
+    specs.append({'sim': 'GroundStateSearch', 'alg': 'TwoSiteDMRGEngine', 'fmt': 'pkl', 'L': 6, 'chi': rng.choice([6, 8]), 'max_sweeps': 20,
+                  'min_sweeps_auto': True, 'alg_params': {'max_E_err': 1.e-8, 'max_S_err': 1.e-4}, 'protocol_model': False})
+    for sp in specs:
+        sp['stream'] = 'real-resume-dmrg'
     return specs
 
 
@@ -751,7 +813,7 @@ def main(ctx):
                 eval_histories(ctx, inp['stream'], res, inp['safe'], inp['nsteps'], inp['fmt'], cc, cm)
                 run_coq(ctx, 'c18_replay', 'check_history', cc, cm, 'Model/Fs.v and the implementation disagree on this history')
             return ctx.finish(RULE, 'replay of one recorded history')
-        if inp.get('stream') in ('real-resume', 'real-resume-options'):
+        if inp.get('stream') in ('real-resume', 'real-resume-options', 'real-resume-dmrg'):
             (res, err), = common.run_impl_parallel('c18_impl.py', [dict(kind='real', spec=inp['spec'], modes=[inp.get('mode') or 'listener'],
                                                                          checkpoints=[inp['at']] if inp.get('at') else None)])
             cc, cm, cg, mg = [], [], [], []
@@ -814,7 +876,9 @@ def main(ctx):
     ojobs = [dict(kind='real', spec=sp, modes=sp['modes']) for sp in ospecs]
     gcases = guard_cases(ctx)
     gjobs = [dict(kind='group_guard', cases=gcases)]
-    rjobs = ojobs + rjobs           # the longest jobs first
+    # ---- 6. resume equivalence over the engine state of DMRG that is not psi: mixer, convergence history (generated last)
+    mjobs = [dict(kind='real', spec=sp, modes=['listener'] if not ctx.thorough() else ['listener', 'write']) for sp in dmrg_state_specs(ctx)]
+    rjobs = ojobs + rjobs + mjobs   # the longest jobs first
     allres = common.run_impl_parallel('c18_impl.py', rjobs + jobs + djobs + fjobs + gjobs, maxpar=NP)
     rres, jres = allres[:len(rjobs)], allres[len(rjobs):len(rjobs) + len(jobs)]
     dres = allres[len(rjobs) + len(jobs):len(rjobs) + len(jobs) + len(djobs)]
@@ -878,7 +942,13 @@ def main(ctx):
     ctx.assumptions += [
         'C18 A-fs: rename and unlink are atomic and durable in program order, only a write can be torn (prefix of the bytes); no fsync reordering, no lost directory entries',
         'C18 fault injection is in-process: os.rename/replace/unlink/remove, Path.exists/open, os.path.exists and tenpy.tools.hdf5_io.save are wrapped; a crash is an exception derived from BaseException; a torn write leaves a byte prefix of the file the real writer produces',
-        'C18 not modelled: handle_abort_signal timing, the mixer and the convergence history (sweep_stats) of DMRG across a resume, sequential simulations, log files',
+        'C18 not modelled in Coq (oracle-checked only, stream real-resume-dmrg): the mixer and the convergence history (sweep_stats) of DMRG across a resume; not covered: handle_abort_signal timing, sequential simulations, log files',
+        'C18 resume is exercised for files that contain resume_data, and for save_psi=False, save_resume_data=False (refusal). Not drawn: save_psi=True with save_resume_data=False. '
+        'doc/intro/simulations.rst (Checkpoints for resuming a simulation) requires both save_psi and save_resume_data for a checkpoint that can be resumed; without resume_data '
+        'tenpy restarts the algorithm from results["psi"] with a fresh engine (sweeps / evolved_time restart at 0, documented for DMRG as "roughly equivalent to starting a new '
+        'simulation with the initial state loaded"), so such a file is not a checkpoint in the sense of the property. Observed on the unchanged tree (not a finding of C18): a '
+        'RealTimeEvolution resumed this way repeats the evolution and appends records with evolved_time restarting at dt instead of refusing',
+        'C18 stream real-resume-dmrg measures at the algorithm checkpoints without the default m_entropy: psi has non-diagonal Schmidt values while a mixer is active (documented for measure_at_algorithm_checkpoints)',
     ]
     return ctx.finish(RULE, 'Coq: crash safety of an uninterrupted run for every number of saves and crash point; of resumed histories unless a resume '
                       'starts with a partial output file (that case is refuted by a witness, reproduced on the code: F11); measurement protocol '
@@ -901,4 +971,7 @@ RULE = ('fs-history: all crash points (before every primitive path operation, in
         'psi.grouped and the lengths of psi and model after group_sites_for_algorithm / group_split of every process are compared with '
         'Model/ResumeProto.v (check_group), psi.grouped in the checkpoint file and of the final states with check_proto. group-guard: '
         'group_sites_for_algorithm + group_split called directly on psi pre-grouped by [], [2], [3], [4], [2,2] x group_sites 0..4 x '
-        'loaded_from_checkpoint; non-trivial = group_sites > 1.')
+        'loaded_from_checkpoint; non-trivial = group_sites > 1. real-resume-dmrg: 1-/2-site DMRG with a mixer (engine default / drawn amplitude, decay, '
+        'disable_after: checkpoints with an active mixer, right after and after its deactivation) and with the convergence criterion deciding '
+        '(min_sweeps = sweeps of the last checkpoint of the uninterrupted run), stopped at every checkpoint, resumed, compared with the plain run; the '
+        'mixer and the length of sweep_stats at the start of every sweep are observed to attribute a difference.')
